@@ -151,7 +151,8 @@ type vrcStep struct {
 	name   string
 	prio   int32
 	json   string
-	cancel bool // the transaction is cancelled instead of confirmed: everything is as before it
+	cancel bool      // the transaction is cancelled instead of confirmed: everything is as before it
+	with   []vrcStep // further intents of the same transaction
 }
 
 type vrcLive struct {
@@ -194,6 +195,10 @@ func TestVerifReplayConverge(t *testing.T) {
 		"weaker intent adds the other case":                               {{name: "O1", prio: 5, json: case1}, {name: "O2", prio: 10, json: case2}},
 		"weaker intent adds a member of the winning case":                 {{name: "O1", prio: 5, json: case1}, {name: "O3", prio: 8, json: case2}, {name: "O2", prio: 10, json: case1Log}},
 		"stronger intent takes the choice over":                           {{name: "O2", prio: 10, json: case2}, {name: "O1", prio: 5, json: case1}},
+		"two intents shrink in one transaction":                           {{name: "A", prio: 10, json: ifTwo}, {name: "B", prio: 20, json: ifTwo}, {name: "A", prio: 10, json: ifB, with: []vrcStep{{name: "B", prio: 20, json: ifA}}}},
+		"two intents deleted in one transaction":                          {{name: "A", prio: 10, json: ifTwo}, {name: "B", prio: 20, json: ifTwo}, {name: "C", prio: 30, json: ifA}, {name: "A", prio: 10, json: "", with: []vrcStep{{name: "B", prio: 20, json: ""}}}},
+		"two intents set in one transaction":                              {{name: "A", prio: 10, json: ifA, with: []vrcStep{{name: "B", prio: 5, json: ifTwo}}}, {name: "B", prio: 5, json: ""}},
+		"unchanged shadowed intent re-applied":                            {{name: "A", prio: 10, json: ifA}, {name: "B", prio: 5, json: ifB}, {name: "A", prio: 10, json: ifA}},
 		"deleted intent cancelled":                                        {{name: "A", prio: 10, json: ifTwo}, {name: "A", prio: 10, json: "", cancel: true}},
 	}
 	names := make([]string, 0, len(histories))
@@ -246,34 +251,44 @@ func TestVerifReplayConverge(t *testing.T) {
 		var done []string
 		for si, st := range steps {
 			n++
-			done = append(done, fmt.Sprintf("%s@%d:%s%s", st.name, st.prio, map[bool]string{true: "delete", false: st.json}[st.json == ""], map[bool]string{true: " (cancelled)", false: ""}[st.cancel]))
+			all := append([]vrcStep{st}, st.with...)
+			var descr []string
+			for _, x := range all {
+				descr = append(descr, fmt.Sprintf("%s@%d:%s", x.name, x.prio, map[bool]string{true: "delete", false: x.json}[x.json == ""]))
+			}
+			done = append(done, strings.Join(descr, " + ")+map[bool]string{true: " (cancelled)", false: ""}[st.cancel])
 			in := fmt.Sprintf("history=%s,steps=%v", hname, done)
-			req := &sdcpb.TransactionIntent{Intent: st.name, Priority: st.prio}
-			if st.json == "" {
-				req.Delete = true
-			} else {
-				req.Update = []*sdcpb.Update{{Path: &sdcpb.Path{}, Value: &sdcpb.TypedValue{Value: &sdcpb.TypedValue_JsonVal{JsonVal: []byte(st.json)}}}}
-			}
-			ti, err := d.SdcpbTransactionIntentToInternalTI(ctx, req)
-			if err != nil {
-				t.Fatalf("%s: %v", in, err)
-			}
-			// what the intent says, through the real expansion (paths and typed values)
-			unchanged := false
-			if st.cancel {
-				// nothing changes
-			} else if st.json == "" {
-				delete(live, st.name)
-			} else {
-				leaves := map[string]string{}
-				for _, u := range ti.GetUpdates() {
-					tv, _ := u.Value()
-					leaves[strings.Join(u.GetPath(), "/")] = utils.TypedValueToString(tv)
+			var tis []*types.TransactionIntent
+			unchanged := len(all) == 1
+			for _, x := range all {
+				req := &sdcpb.TransactionIntent{Intent: x.name, Priority: x.prio}
+				if x.json == "" {
+					req.Delete = true
+				} else {
+					req.Update = []*sdcpb.Update{{Path: &sdcpb.Path{}, Value: &sdcpb.TypedValue{Value: &sdcpb.TypedValue_JsonVal{JsonVal: []byte(x.json)}}}}
 				}
-				if old, ok := live[st.name]; ok && old.prio == st.prio && fmt.Sprint(old.leaves) == fmt.Sprint(leaves) {
-					unchanged = true
+				ti, err := d.SdcpbTransactionIntentToInternalTI(ctx, req)
+				if err != nil {
+					t.Fatalf("%s: %v", in, err)
 				}
-				live[st.name] = &vrcLive{prio: st.prio, leaves: leaves}
+				tis = append(tis, ti)
+				// what the intent says, through the real expansion (paths and typed values)
+				if st.cancel {
+					unchanged = false // nothing changes
+				} else if x.json == "" {
+					delete(live, x.name)
+					unchanged = false
+				} else {
+					leaves := map[string]string{}
+					for _, u := range ti.GetUpdates() {
+						tv, _ := u.Value()
+						leaves[strings.Join(u.GetPath(), "/")] = utils.TypedValueToString(tv)
+					}
+					if old, ok := live[x.name]; !(ok && old.prio == x.prio && fmt.Sprint(old.leaves) == fmt.Sprint(leaves)) {
+						unchanged = false
+					}
+					live[x.name] = &vrcLive{prio: x.prio, leaves: leaves}
+				}
 			}
 			if st.cancel {
 				// (the oracle above was not updated; the block below only computes `leaves` for set steps)
@@ -288,7 +303,7 @@ func TestVerifReplayConverge(t *testing.T) {
 						fmt.Printf("REPLAY-FAIL fn=%s clause=panic input=%s panic=%v\n", fnLL, in, r)
 					}
 				}()
-				rsp, err = d.TransactionSet(ctx, id, []*types.TransactionIntent{ti}, nil, time.Minute, false)
+				rsp, err = d.TransactionSet(ctx, id, tis, nil, time.Minute, false)
 			}()
 			if failed {
 				break
